@@ -39,6 +39,11 @@ CLAIMED["C13"] = dict(
     text="Random trees in which ~45% of the tokens are punctuation (consecutive, punctuation-only constituents, unary nodes over punctuation, gaps) are run through punctuation_verylow, punctuation_root and punctuation_symetrify (with and without relc). The stated post-condition of each is evaluated on the final tree, the set of nodes whose parent pointer changed must contain only the permitted punctuation tokens, and the result must be the same root, well formed, with the same sentence and node set.",
     note="Trusted: inventories of punctuation copied from the documented constants and cross-checked at start-up. punctuation_symetrify is only restricted, not obliged, by the statement, so a version that moves fewer tokens is not flagged.",
     ref="DESIGN.md section 2, C13")
+CLAIMED["C14"] = dict(
+    tech="Hypothesis head-marked trees (labels built from parts) with round-trip oracle: splice out @-nodes / uncollapse(collapse(t)) == t, plus normal-form predicates and rejection of unmarked wide nodes",
+    text="Random head-marked trees of arity up to 6 (head first/last/middle, discontinuous nodes, decorated labels) are binarized with and without bare_bin_labels: at most two children everywhere, exactly (arity-2) added nodes per node, each labelled '@'+parent label without co-index (or '@'), and splicing them out must give back the original tree with all fields and head flags; a wide node without any head key must be rejected. Trees with inserted unary chains of length 1..4 at the root, in the middle and above tokens are collapsed (no unary node left, labels joined top-down with '+', equal to the model's collapse) and uncollapsed back to the original labels, words, POS and structure, returning the root.",
+    note="Trusted: set model and the model-side collapse in checks/C14.py. One-token sentences are skipped for collapsing (documented caveat). Binarization direction is not part of the statement.",
+    ref="DESIGN.md section 2, C14")
 PENDING_REASON = "check not built yet in this round (planned, see DESIGN.md section 6); not claimed until it is quiet on the unchanged tree"
 
 
